@@ -143,6 +143,15 @@ def realise(spec):
         return C.OneOf(R(spec[1]), list(spec[2]))
     if k == "noneof":
         return C.NoneOf(R(spec[1]), list(spec[2]))
+    if k == "exprsym":          # self-inverse adapter: value = raw ^ k
+        return C.ExprSymmetricAdapter(R(spec[1]), C.obj_ ^ spec[2])
+    if k == "expradd":          # value = raw + k
+        return C.ExprAdapter(R(spec[1]), C.obj_ + spec[2], C.obj_ - spec[2])
+    if k == "exprvalid":        # value < k
+        return C.ExprValidator(R(spec[1]), C.obj_ < spec[2])
+    if k == "lazybound":
+        inner = R(spec[1])
+        return C.LazyBound(lambda: inner)
     if k == "bits":
         return C.BitsInteger(param(spec[1]), signed=spec[2], swapped=spec[3])
     if k == "bit":
@@ -269,7 +278,7 @@ def children(spec):
         return [s for _, s in spec[2]]
     if k in ("enum", "flagsenum", "mapping", "oneof", "noneof", "grange", "optional", "rebuild", "default", "bitwise",
              "bytewise", "byteswapped", "bitsswapped", "hex", "hexdump", "peek", "rawcopy", "lazy", "nullterm", "nullstrip",
-             "compressed", "docs"):
+             "compressed", "docs", "exprsym", "expradd", "exprvalid", "lazybound"):
         return [spec[1]]
     if k == "const":
         return [spec[2]] if spec[2] is not None else []
@@ -325,6 +334,8 @@ def buildnone(spec):
         return buildnone(spec[2]) and buildnone(spec[3])
     if k == "switch":
         return all(buildnone(s) for _, s in spec[2]) and (spec[3] is None or buildnone(spec[3]))
+    if k in ("exprsym", "expradd", "exprvalid", "lazybound"):
+        return False        # (LazyBound does not inherit the flag of the construct it produces)
     if k in ("enum", "flagsenum", "mapping", "oneof", "noneof", "grange", "bitwise", "bytewise", "byteswapped",
              "bitsswapped", "hex", "hexdump", "rawcopy", "lazy", "nullterm", "nullstrip", "compressed", "docs"):
         return buildnone(spec[1])
@@ -358,7 +369,7 @@ def fixed_size(spec, bit=False):
     if k == "flag":
         return 1
     if k in ("enum", "flagsenum", "mapping", "oneof", "noneof", "rebuild", "default", "hex", "hexdump", "docs", "byteswapped",
-             "bitsswapped"):
+             "bitsswapped", "exprsym", "expradd", "exprvalid"):
         return fixed_size(spec[1], bit)
     if k == "const":
         return fixed_size(spec[2], bit) if spec[2] is not None else len(spec[1])
